@@ -6,6 +6,7 @@ CONSTANTS
   Rets <- RetsOne
   Advs <- AdvsExact
   Decs <- DecsSleep
+  BFaults <- BFaultsNone
   Ras <- RasNone
   Modes = {"call", "exec"}
   NRuns = 1
